@@ -313,12 +313,12 @@ func (c wspec) scenario() *sched.Scenario {
 func wspecs(tier core.Tier) []wspec {
 	var alpha []wop
 	for x := 0; x < 2; x++ {
-		alpha = append(alpha, wop{"Add", x, 3}, wop{"Remove", x, 2}, wop{"Contains", x, 2}, wop{"Cardinality", x, 0},
+		alpha = append(alpha, wop{"Add", x, 3}, wop{"Remove", x, 2}, wop{"Contains", x, 2}, wop{"Cardinality", x, 0}, wop{"CheckedAdd", x, 3},
 			wop{"Or", x, 0}, wop{"And", x, 0}, wop{"AndNot", x, 0}, wop{"Xor", x, 0})
 	}
 	if tier == core.Thorough {
 		for x := 0; x < 2; x++ {
-			alpha = append(alpha, wop{"CheckedAdd", x, 1}, wop{"Slice", x, 0}, wop{"Clear", x, 0})
+			alpha = append(alpha, wop{"CheckedAdd", x, 2}, wop{"Slice", x, 0}, wop{"Clear", x, 0})
 		}
 	}
 	mutates := func(ps ...[]wop) bool {
